@@ -27,13 +27,13 @@ theorem noStall_nil : NoStall [] := fun k => by simp [zeroRun, maxConsecutiveEmp
 /-! ## the underlying reader -/
 
 /-- the three things one `Read` of the underlying reader can do (for a non-empty `p`) -/
-theorem under_read_cases (u : Under) (w : Nat) (hw : 0 < w) :
-    (∃ t, u.sched = 0 :: t ∧ u.read w = ⟨[], none, { u with sched := t }⟩) ∨
+theorem under_readCore_cases (u : Under) (w : Nat) (hw : 0 < w) :
+    (∃ t, u.sched = 0 :: t ∧ u.readCore w = ⟨[], none, { u with sched := t }⟩) ∨
     (zeroRun u.sched = 0 ∧ u.rem = [] ∧
-      u.read w = ⟨[], some (.e .eof), { u with sched := u.sched.drop 1 }⟩) ∨
+      u.readCore w = ⟨[], some (.e .eof), { u with sched := u.sched.drop 1 }⟩) ∨
     (zeroRun u.sched = 0 ∧ ∃ d rest e, d ≠ [] ∧ u.rem = d ++ rest ∧ d.length ≤ w ∧
       (e = none ∨ (e = some (.e .eof) ∧ rest = [] ∧ u.eofData = true)) ∧
-      u.read w = ⟨d, e, { u with rem := rest, sched := u.sched.drop 1 }⟩) := by
+      u.readCore w = ⟨d, e, { u with rem := rest, sched := u.sched.drop 1 }⟩) := by
   have hdel : ∀ (v : Under) (n : Nat), 0 < n → n ≤ w →
       (v.rem = [] ∧ v.deliver n = ⟨[], some (.e .eof), v⟩) ∨
       (∃ d rest e, d ≠ [] ∧ v.rem = d ++ rest ∧ d.length ≤ w ∧
@@ -62,25 +62,40 @@ theorem under_read_cases (u : Under) (w : Nat) (hw : 0 < w) :
     rcases hdel u w hw (Nat.le_refl _) with ⟨h1, h2⟩ | ⟨d, rest, e, h1, h2, h3, h4, h5⟩
     · right; left
       refine ⟨by simp [zeroRun], h1, ?_⟩
-      simp only [Under.read, hs, h2, List.drop_nil]
+      simp only [Under.readCore, hs, h2, List.drop_nil]
       try (congr 1; cases u; simp_all)
     · right; right
       refine ⟨by simp [zeroRun], d, rest, e, h1, h2, h3, h4, ?_⟩
-      simp only [Under.read, hs, h5, List.drop_nil]
+      simp only [Under.readCore, hs, h5, List.drop_nil]
       try (congr 1; cases u; simp_all)
   | cons l t =>
     by_cases hl : l = 0
-    · left; subst hl; exact ⟨t, rfl, by simp [Under.read, hs]⟩
+    · left; subst hl; exact ⟨t, rfl, by simp [Under.readCore, hs]⟩
     · have hz : zeroRun (l :: t) = 0 := zeroRun_pos l t hl
       have hm : 0 < min l w := by omega
       rcases hdel { u with sched := t } (min l w) hm (Nat.min_le_right _ _) with
         ⟨h1, h2⟩ | ⟨d, rest, e, h1, h2, h3, h4, h5⟩
       · right; left
         refine ⟨hz, h1, ?_⟩
-        simp only [Under.read, hs, if_neg hl, h2, List.drop_succ_cons, List.drop_zero]
+        simp only [Under.readCore, hs, if_neg hl, h2, List.drop_succ_cons, List.drop_zero]
       · right; right
         refine ⟨hz, d, rest, e, h1, h2, h3, h4, ?_⟩
-        simp only [Under.read, hs, if_neg hl, h5, List.drop_succ_cons, List.drop_zero]
+        simp only [Under.readCore, hs, if_neg hl, h5, List.drop_succ_cons, List.drop_zero]
+
+@[simp] theorem logged_rem (u : Under) (w : Nat) : (u.logged w).rem = u.rem := rfl
+@[simp] theorem logged_sched (u : Under) (w : Nat) : (u.logged w).sched = u.sched := rfl
+@[simp] theorem logged_eofData (u : Under) (w : Nat) : (u.logged w).eofData = u.eofData := rfl
+@[simp] theorem logged_reqs (u : Under) (w : Nat) : (u.logged w).reqs = w :: u.reqs := rfl
+
+/-- the same for `Read` with its ghost log of requests -/
+theorem under_read_cases (u : Under) (w : Nat) (hw : 0 < w) :
+    (∃ t, u.sched = 0 :: t ∧ u.read w = ⟨[], none, { u.logged w with sched := t }⟩) ∨
+    (zeroRun u.sched = 0 ∧ u.rem = [] ∧
+      u.read w = ⟨[], some (.e .eof), { u.logged w with sched := u.sched.drop 1 }⟩) ∨
+    (zeroRun u.sched = 0 ∧ ∃ d rest e, d ≠ [] ∧ u.rem = d ++ rest ∧ d.length ≤ w ∧
+      (e = none ∨ (e = some (.e .eof) ∧ rest = [] ∧ u.eofData = true)) ∧
+      u.read w = ⟨d, e, { u.logged w with rem := rest, sched := u.sched.drop 1 }⟩) :=
+  under_readCore_cases (u.logged w) w hw
 
 /-! ## the buffered reader -/
 
@@ -113,7 +128,7 @@ theorem fillLoop_spec (cap : Nat) (ed : Bool) : ∀ (i : Nat) (b : Rd), b.Inv ca
     rcases under_read_cases b.under (b.cap - b.pend.length) hw with
       ⟨t, hs, hr⟩ | ⟨hz0, hrem, hr⟩ | ⟨hz0, d, rest, e, hd, hrem, hlen, he', hr⟩
     · -- an empty read: try again
-      have hb' : ({ b with pend := b.pend ++ [], under := { b.under with sched := t } } : Rd).Inv cap ed :=
+      have hb' : ({ b with pend := b.pend ++ [], under := { b.under.logged (b.cap - b.pend.length) with sched := t } } : Rd).Inv cap ed :=
         { cap_eq := hinv.cap_eq, cap_pos := hinv.cap_pos, ed_eq := hinv.ed_eq,
           noStall := by have := hinv.noStall; rw [hs] at this; exact this.tail
           err_ok := hinv.err_ok }
@@ -259,11 +274,11 @@ theorem rd_read_spec (cap : Nat) (ed : Bool) (b : Rd) (n : Nat) (hn : 0 < n) (hi
     rw [← h1]
   | nil =>
     rcases hinv.err_ok with he | ⟨he, hrem⟩
-    · by_cases hbig : n ≥ b.cap
+    · by_cases hbig : n ≥ b.cap ∧ b.aligned = false
       · -- large read, empty buffer
         rcases under_read_cases b.under n hn with
           ⟨t, hs, hr⟩ | ⟨hz0, hrem, hr⟩ | ⟨hz0, d, rest, e, hd, hrem, hlen, he', hr⟩
-        · refine ⟨[], none, { b with under := { b.under with sched := t } }, ?_, ?_, ?_, by simp, Or.inl rfl,
+        · refine ⟨[], none, { b with under := { b.under.logged n with sched := t } }, ?_, ?_, ?_, by simp, Or.inl rfl,
             ?_, ?_⟩
           · simp only [Rd.read, if_neg hn0, hp, he, if_pos hbig, hr]
           · exact { cap_eq := hinv.cap_eq, cap_pos := hinv.cap_pos, ed_eq := hinv.ed_eq,
@@ -272,14 +287,14 @@ theorem rd_read_spec (cap : Nat) (ed : Bool) (b : Rd) (n : Nat) (hn : 0 < n) (hi
           · simp [Rd.stream]
           · rw [hs]; simp
           · right; right; rw [hs]; simp
-        · refine ⟨[], some (.e .eof), { b with under := { b.under with sched := b.under.sched.drop 1 } }, ?_, ?_,
+        · refine ⟨[], some (.e .eof), { b with under := { b.under.logged n with sched := b.under.sched.drop 1 } }, ?_, ?_,
             ?_, by simp, ?_, by simp, Or.inr (Or.inl rfl)⟩
           · simp only [Rd.read, if_neg hn0, hp, he, if_pos hbig, hr]
           · exact { cap_eq := hinv.cap_eq, cap_pos := hinv.cap_pos, ed_eq := hinv.ed_eq,
                     noStall := hinv.noStall.drop 1, err_ok := Or.inl he }
           · simp [Rd.stream]
           · right; exact ⟨rfl, by simp [Rd.stream, hp, hrem], Or.inl rfl⟩
-        · refine ⟨d, e, { b with under := { b.under with rem := rest, sched := b.under.sched.drop 1 } }, ?_, ?_,
+        · refine ⟨d, e, { b with under := { b.under.logged n with rem := rest, sched := b.under.sched.drop 1 } }, ?_, ?_,
             ?_, hlen, ?_, by simp, Or.inl hd⟩
           · simp only [Rd.read, if_neg hn0, hp, he, if_pos hbig, hr]
           · exact { cap_eq := hinv.cap_eq, cap_pos := hinv.cap_pos, ed_eq := hinv.ed_eq,
@@ -294,7 +309,7 @@ theorem rd_read_spec (cap : Nat) (ed : Bool) (b : Rd) (n : Nat) (hn : 0 < n) (hi
         have hcap : 0 < b.cap := by rw [hinv.cap_eq]; exact hinv.cap_pos
         rcases under_read_cases b.under b.cap hcap with
           ⟨t, hs, hr⟩ | ⟨hz0, hrem, hr⟩ | ⟨hz0, d, rest, e, hd, hrem, hlen, he', hr⟩
-        · refine ⟨[], none, { b with under := { b.under with sched := t } }, ?_, ?_, ?_, by simp, Or.inl rfl,
+        · refine ⟨[], none, { b with under := { b.under.logged b.cap with sched := t } }, ?_, ?_, ?_, by simp, Or.inl rfl,
             ?_, ?_⟩
           · simp only [Rd.read, if_neg hn0, hp, he, if_neg hbig, hr, List.length_nil, if_true]
           · exact { cap_eq := hinv.cap_eq, cap_pos := hinv.cap_pos, ed_eq := hinv.ed_eq,
@@ -303,7 +318,7 @@ theorem rd_read_spec (cap : Nat) (ed : Bool) (b : Rd) (n : Nat) (hn : 0 < n) (hi
           · simp [Rd.stream]
           · rw [hs]; simp
           · right; right; rw [hs]; simp
-        · refine ⟨[], some (.e .eof), { b with under := { b.under with sched := b.under.sched.drop 1 } }, ?_, ?_,
+        · refine ⟨[], some (.e .eof), { b with under := { b.under.logged b.cap with sched := b.under.sched.drop 1 } }, ?_, ?_,
             ?_, by simp, ?_, by simp, Or.inr (Or.inl rfl)⟩
           · simp only [Rd.read, if_neg hn0, hp, he, if_neg hbig, hr, List.length_nil, if_true]
           · exact { cap_eq := hinv.cap_eq, cap_pos := hinv.cap_pos, ed_eq := hinv.ed_eq,
@@ -312,7 +327,7 @@ theorem rd_read_spec (cap : Nat) (ed : Bool) (b : Rd) (n : Nat) (hn : 0 < n) (hi
           · right; exact ⟨rfl, by simp [Rd.stream, hp, hrem], Or.inl rfl⟩
         · have hdl : d.length ≠ 0 := by
             have := List.length_pos_iff.mpr hd; omega
-          have ha : ({ b with pend := d, err := e, under := { b.under with rem := rest, sched := b.under.sched.drop 1 } } : Rd).Inv cap ed :=
+          have ha : ({ b with pend := d, err := e, under := { b.under.logged b.cap with rem := rest, sched := b.under.sched.drop 1 } } : Rd).Inv cap ed :=
             { cap_eq := hinv.cap_eq, cap_pos := hinv.cap_pos, ed_eq := hinv.ed_eq,
               noStall := hinv.noStall.drop 1
               err_ok := by
